@@ -8,22 +8,31 @@
 EXTENDS Integers, Sequences, FiniteSets, TLC, CaseIO, SequencesExt
 CONSTANTS Classes, Ns
 Routes == <<"int", "wkt", "jsonstr", "obj_wkt", "dict", "obj_epsg", "epsgstr", "obj_dict">>
+\* "projdict": a PROJ-parameter dict ({"proj": "utm", "zone": n, ...}) - a small pyproj object that is its own cache key.
+\* Only for classes whose parameter form pyproj identifies with the EPSG form (UTM zones, web mercator).
+PClasses == Classes \ {"c4326", "c3577"}
 ClassSeq == SetToSeq(Classes)
 Step(op, r, src, cls, route) == [op |-> op, r |-> r, src |-> src, cls |-> cls, route |-> route, form |-> "", same |-> {}]
 \* i-th churn specification: cycles through classes other than `a` and all routes
-ChurnCls(a, i) == LET others == SelectSeq(ClassSeq, LAMBDA c : c # a) IN others[((i - 1) % Len(others)) + 1]
+ChurnClsIn(a, i, S) == LET others == SelectSeq(ClassSeq, LAMBDA c : c # a /\ c \in S) IN others[((i - 1) % Len(others)) + 1]
+ChurnCls(a, i) == ChurnClsIn(a, i, Classes)
 ChurnRoute(i) == Routes[(((i - 1) \div (Cardinality(Classes) - 1)) % Len(Routes)) + 1]
-RECURSIVE Churn(_, _, _)
-Churn(a, i, n) == IF i > n THEN <<>>
-                  ELSE <<Step("make", 3, 0, ChurnCls(a, i), ChurnRoute(i)), Step("transform", 3, 2, ChurnCls(a, i), "?"),
-                         Step("drop", 3, 0, "", "")>> \o Churn(a, i + 1, n)
-Scenario(a, b, rt, n) ==
-  <<Step("make", 1, 0, a, rt), Step("make", 2, 0, b, "int"), Step("transform", 1, 2, a, b), Step("drop", 1, 0, "", "")>>
-  \o Churn(a, 1, n)
+\* mode "cycle": the churn walks through all routes; mode "same": every churn specification comes by the scenario's own
+\* route, so the objects allocated after the drop have the size of the dropped one (an address is re-used at once if free)
+RECURSIVE Churn(_, _, _, _, _)
+Churn(a, i, n, rt, mode) ==
+  IF i > n THEN <<>>
+  ELSE LET cl == IF rt = "projdict" /\ mode = "same" THEN ChurnClsIn(a, i, PClasses) ELSE ChurnCls(a, i) IN
+       <<Step("make", 3, 0, cl, IF mode = "same" THEN rt ELSE ChurnRoute(i)), Step("transform", 3, 2, cl, "?"),
+         Step("drop", 3, 0, "", ""), Step("gc", 0, 0, "", "")>> \o Churn(a, i + 1, n, rt, mode)
+Scenario(a, b, rt, n, mode) ==
+  <<Step("make", 1, 0, a, rt), Step("make", 2, 0, b, "int"), Step("transform", 1, 2, a, b), Step("drop", 1, 0, "", ""), Step("gc", 0, 0, "", "")>>
+  \o Churn(a, 1, n, rt, mode)
 VARIABLE c
 Init == c \in {[op |-> "chunk", a |-> a, b |-> b] : a \in Classes, b \in Classes}
-Next == c.op = "chunk" /\ \E rt \in {"wkt", "obj_epsg", "dict"}, n \in Ns :
-           c' = [hist |-> Scenario(c.a, c.b, rt, n), whatif |-> TRUE, op |-> "scenario"] /\ Emit(c')
+Next == c.op = "chunk" /\ \E rt \in {"wkt", "obj_epsg", "dict", "obj_dict", "jsonstr", "projdict"}, n \in Ns, mode \in {"cycle", "same"} :
+           (rt = "projdict" => c.a \in PClasses) /\
+           c' = [hist |-> Scenario(c.a, c.b, rt, n, mode), whatif |-> TRUE, op |-> "scenario", mode |-> mode, rt |-> rt] /\ Emit(c')
 Spec == Init /\ [][Next]_c
 \* well-formedness of the generated histories: a reference is dropped only when held, made only when free
 WellFormed == c.op = "scenario" =>
